@@ -6,6 +6,7 @@ truncation of the document-frequency window, the idf formulas) is not."""
 import re
 from .core import RuleResult
 from .facts import fn_key, fn_loc, fn_file, walk, strip, peel_refs, pat_bindings, Render
+from .facts import lit_float, lit_number
 
 LEVEL = ("Static analysis of linfa-preprocessing's vectorisers. Decided, for all corpora and settings: (pipeline) fitting and "
          "transforming tokenise through the same steps - normalisation/lower-casing helper, tokenizer function or regex, "
@@ -761,7 +762,7 @@ def rule_lookupall(ctx):
         recips = set()
         for loc, ini in inits.items():
             i0 = peel_refs(ini)
-            if i0.get("k") == "Binary" and i0["op"] == "/" and peel_refs(i0["l"]).get("k") == "Lit" and str(peel_refs(i0["l"]).get("v")).rstrip(".0f3264_") == "1":
+            if i0.get("k") == "Binary" and i0["op"] == "/" and peel_refs(i0["l"]).get("k") == "Lit" and lit_float(peel_refs(i0["l"]).get("v")) == 1.0:
                 recips.add(loc)
             if i0.get("k") == "MethodCall" and i0["name"] == "recip":
                 recips.add(loc)
@@ -793,8 +794,14 @@ def rule_regexfresh(ctx):
         key = fn_key(fn)
         res.instance("%s : compiled form written" % key)
         writes = []
+        alias = set()
+        for n in walk(fn["body"]):
+            if n.get("k") == "LetStmt" and n.get("init") is not None and n["pat"].get("k") == "Bind" and any(z.get("k") == "Field" and z["name"] == "split_regex" for z in walk(n["init"])):
+                alias.add(n["pat"]["local"])      # `let mut cell = self.0.split_regex.borrow_mut();`
         for n, anc in with_parents(fn["body"]):
             if n.get("k") == "Assign" and any(z.get("k") == "Field" and z["name"] == "split_regex" for z in walk(n["l"])):
+                writes.append((n, anc))
+            if n.get("k") == "Assign" and any(z.get("k") == "Path" and z.get("local") in alias for z in walk(n["l"])):
                 writes.append((n, anc))
             if n.get("k") == "MethodCall" and n["name"] in ("replace", "set", "get_or_insert_with", "insert") and any(z.get("k") == "Field" and z["name"] == "split_regex" for z in walk(n["recv"])):
                 writes.append((n, anc))
@@ -809,7 +816,7 @@ def rule_regexfresh(ctx):
             for a in anc:
                 if a.get("k") == "If":
                     cond = a["c"]
-                    reads_cell = any(z.get("k") == "Field" and z["name"] == "split_regex" for z in walk(cond))
+                    reads_cell = any((z.get("k") == "Field" and z["name"] == "split_regex") or (z.get("k") == "Path" and z.get("local") in alias) for z in walk(cond))
                     reads_expr = any(z.get("k") == "Field" and z["name"] == "split_regex_expr" for z in walk(cond))
                     if reads_cell and not reads_expr:
                         bad = (n, r.e(strip(cond))[:60])
@@ -825,7 +832,9 @@ def rule_regexfresh(ctx):
 
 def rules(tier):
     from . import carry, c04, iteroverride
-    return [rule_lookupall, iteroverride.make_rule("R-C17-iter", {CRATE}, 1, "linfa-preprocessing (the n-gram walk)"), rule_regexfresh, rule_views, rule_ngrams, rule_pipeline, rule_docfreq, rule_window, rule_reindex, rule_lookup, rule_row, rule_tfidf,
+    from . import intnarrow
+    return [intnarrow.make_rule("R-C17-narrow", lambda f: f["d"]["krate"] == CRATE and any(x in fn_file(f) for x in ("countgrams", "tf_idf", "helpers")), "the vectorisers of linfa-preprocessing"),
+            rule_lookupall, iteroverride.make_rule("R-C17-iter", {CRATE}, 1, "linfa-preprocessing (the n-gram walk)"), rule_regexfresh, rule_views, rule_ngrams, rule_pipeline, rule_docfreq, rule_window, rule_reindex, rule_lookup, rule_row, rule_tfidf,
             carry.make_clone_rule("R-C17-clone", {CRATE}, 8), carry.make_setter_rule("R-C17-override", {CRATE}, 4),
             c04.make_carry_rule("R-C17-carry", {"CountVectorizerParams"}, 4), c04.make_setter_value_rule("R-C17-setter", {"CountVectorizerParams", "TfIdfVectorizer"}, 6),
             carry.make_accessor_rule("R-C17-accessor", {"linfa_preprocessing"}, 6), carry.make_ctor_rule("R-C17-ctor", {"linfa_preprocessing"}, 2)]
